@@ -2160,6 +2160,7 @@ class LTFlow:
         self.index_nodes = {}    # "expr:..." index of a sequence -> its expression node
         self.nsteps = 0
         self.seen_events = set()
+        self.returns = []        # concrete mode: (returned end, output position, advances, every branch decided, node) per return
 
     # ---- expression helpers
     def ltcall(self, x, names):
@@ -2278,6 +2279,13 @@ class LTFlow:
                 return None
             return self.value(kids(e)[1] if c else kids(e)[2], st)
         isnum = lambda v: isinstance(v, int) and not isinstance(v, bool)
+        if k == "UnaryOperator" and e.get("op") in ("++", "--") and ref_of(kids(e)[0]) is not None:
+            # value of a counter stepped inside a condition (`if (++i >= n)`, `while (remaining-- > 0)`); the effect is
+            # applied by expr_effects
+            v = self.value(kids(e)[0], st)
+            if not isnum(v):
+                return None
+            return v if e.get("postfix") else v + (1 if e["op"] == "++" else -1)
         if "callee" in e and e["k"] == "CallExpr":
             nm = e["callee"]["name"]
             args = [a for a in kids(e) if a is not None and a["k"] != "DefaultArg"]
@@ -2424,6 +2432,9 @@ class LTFlow:
                          % ("without its head having been emitted" if tree == "SYNC" else "twice"), node)
                 return []
             env2 = frozenset((d, v) for d, v in env if v in ("bound", "srccopy") or isinstance(v, int) and not isinstance(v, bool) or (d, "E") not in self.edep)
+            if self.concrete is not None:
+                n = sum(v for d, v in env2 if d == "#adv")
+                env2 = frozenset((d, v) for d, v in env2 if d != "#adv") | {("#adv", n + 1)}
             return [("CONSUMED", srcok, None, tpend, env2)]
         if kind == "DMI":
             if tree != "CONSUMED":
@@ -2543,6 +2554,13 @@ class LTFlow:
                 d, v = cnt[0]
                 nv = v if isinstance(v, tuple) else (v + 1 if v < 3 or self.concrete else ("ge", v + 1))
                 out.append(st[:4] + (frozenset((d2, v2) for d2, v2 in env if d2 != d) | {(d, nv)},))
+                continue
+            down = [(d, v) for d, v in env if self.concrete is not None and isinstance(v, int) and not isinstance(v, bool)
+                    and not isinstance(d, str) and step_of(e0, d) == -1]
+            if down:
+                # a countdown (--remaining) on the exact scalars of a scenario
+                d, v = down[0]
+                out.append(st[:4] + (frozenset((d2, v2) for d2, v2 in env if d2 != d) | {(d, v - 1)},))
                 continue
             upd = match.binop(e0, ("+=", "-=")) if e0["k"] == "CompoundAssignOperator" else None
             if upd and ref_of(upd[1]) is not None:
@@ -2679,7 +2697,27 @@ class LTFlow:
         ws = {d for d in ws if d is not None}
         if not ws:
             return states
-        return [st[:4] + (frozenset((d, v) for d, v in st[4] if d not in ws),) for st in states]
+        # a counter stepped by one, unconditionally evaluated (no short-circuit in c), keeps its exact value
+        steps = {}
+        if not any(z["k"] == "ConditionalOperator" or match.binop(z, ("&&", "||")) for z in walk(c)):
+            for z in walk(c):
+                u = match.unop(z, ("++", "--")) if z["k"] == "UnaryOperator" else None
+                if u and ref_of(u[1]) is not None:
+                    d = ref_of(u[1])
+                    steps[d] = None if d in steps else (1 if u[0] == "++" else -1)
+            for z in walk(c):
+                w = match.binop(z, ("=", "+=", "-=")) if z["k"] in ("BinaryOperator", "CompoundAssignOperator") else None
+                if w and ref_of(w[1]) in steps:
+                    steps[ref_of(w[1])] = None
+        out = []
+        for st in states:
+            env = frozenset((d, v) for d, v in st[4] if d not in ws)
+            for d, dv in steps.items():
+                old = [v for d2, v in st[4] if d2 == d and isinstance(v, int) and not isinstance(v, bool)]
+                if dv is not None and old and (self.concrete is not None or 0 <= old[0] + dv <= 3):
+                    env = env | {(d, old[0] + dv)}
+            out.append(st[:4] + (env,))
+        return out
 
     def block(self, stmts, states):
         """-> (fall-through, break, continue) state lists; returns are checked on the spot"""
@@ -2715,6 +2753,17 @@ class LTFlow:
             a2, b2, c2 = (self.stmt(e, fs) if e is not None else (fs, [], [])) if fs else ([], [], [])
             return dedupe(a1 + a2), b1 + b2, c1 + c2
         if k == "ReturnStmt":
+            if self.concrete is not None:
+                # emission count of the scenario: the returned end, the output position and the number of advances
+                rv = kids(s)[0] if kids(s) else None
+                num = lambda env, d: ([v for d2, v in env if d2 == d and isinstance(v, int) and not isinstance(v, bool)] or [None])[0]
+                for st in states:
+                    try:
+                        r = self.value(rv, st)
+                    except _NeedE:
+                        r = None
+                    self.returns.append((r if isinstance(r, int) and not isinstance(r, bool) else None, num(st[4], self.target),
+                                         num(st[4], "#adv") or 0, ("?", True) not in st[4], s))
             for st in states:
                 if st[3]:
                     self.bad("target", "the function returns while the last written element is not included in the returned end "
@@ -2947,6 +2996,8 @@ def lt_one(ck, fn, name):
     if not found and not need <= fl.seen_events:
         raise ir.AnalysisBroken("%s: protocol events %s never seen" % (fn.full, sorted(need - fl.seen_events)))
     problems += found
+    if not problems:
+        problems += lt_count(fn, lt, seqs, target, guarded)
     if problems:
         for sig, msg, node in problems[:3]:
             ck.violation("LT-PROTOCOL", fn.qname, ("guarded:" if guarded else "unguarded:") + sig, msg, fn.nloc(node))
@@ -2954,6 +3005,43 @@ def lt_one(ck, fn, name):
         ck.ok("LT-PROTOCOL", "%s<%s>" % (name, fn.targs[0].split("<")[0]),
               "typestate over all paths: insert_start x k -> init -> (min_source, emit+advance that source, "
               "delete_min_insert fed from that source, sup iff exhausted)*")
+
+
+LT_COUNT_SIZES = (0, 1, 2, 3, 6)
+
+
+def lt_count(fn, lt, seqs, target, guarded):
+    """emission count of a loser-tree driver: for a requested length `size` (not above the total) the driver writes exactly
+    `size` elements, returns target + size and advances inputs exactly `size` times -- also for size 0, which the combined
+    variant passes whenever the requested length lies inside the unguarded prefix.  Decided by running the typestate
+    executor on concrete scalars (3 sequences of 2 elements, output position a number); the only undecided conditions
+    are exhaustion tests of input sequences, which fork.  A forked path need not be feasible, so a wrong count is a
+    counterexample only when every return of the scenario, all reached through decided branches, has it."""
+    for size_ in LT_COUNT_SIZES:
+        sc = {"size": size_, "k": 3, "each": 2, "total": 6}
+        fc = LTFlow(fn, lt, seqs, target, guarded, concrete=sc)
+        base = 1000
+        seeds = {seqs: 0, fn.params[1]["did"]: sc["k"], target: base, fn.params[3]["did"]: size_}
+        fall, _, _ = fc.block(kids(fn.body), [("FRESH", False, None, False, frozenset(seeds.items()))])
+        where = "%s: emission count for size %d on 3 sequences of 2 elements" % (fn.full, size_)
+        if fall:
+            raise ir.AnalysisBroken(where + ": driver falls off its end")
+        if fc.badlog:
+            raise ir.AnalysisBroken(where + ": a path ends in a transition the protocol forbids (%s)" % fc.badlog[0][1])
+        if not fc.returns:
+            raise ir.AnalysisBroken(where + ": no return reached")
+        wrong = [r for r in fc.returns if r[0] != base + size_ or r[1] != base + size_ or r[2] != size_]
+        if not wrong:
+            continue
+        if any(r[0] is None or r[1] is None for r in fc.returns):
+            raise ir.AnalysisBroken(where + ": returned end or output position has no value")
+        if len(wrong) < len(fc.returns) or not all(r[3] for r in fc.returns):
+            raise ir.AnalysisBroken(where + ": differs between paths whose feasibility is not decided")
+        r = wrong[0]
+        return [("count", "for size %d on %d sequences of %d elements the driver writes %d element(s), returns target + %d and "
+                 "advances inputs %d time(s); exactly size elements must be written, target + size returned and size elements "
+                 "taken from the inputs" % (size_, sc["k"], sc["each"], r[1] - base, r[0] - base, r[2]), r[4])]
+    return []
 
 
 # ------------------------------------------------------------------ bubble merge
